@@ -336,11 +336,12 @@ def Arg.set (a : Arg) (vals : List GoVal) : Except Err Nat :=
 
 /-! ## Sizes / bitLen / InputSizes -/
 
-/-- `for i := 63; i > 1; i-- { if v&(1<<i) != 0 { return i+1 } }; return 1` -/
+/-- `for i := 63; i > 0; i-- { if v&(1<<i) != 0 { return i+1 } }; return 1`
+(loop bound after commit 485d3fb; before it was `i > 1`, see `bitLenOld` in
+Proofs/IoArg.lean) -/
 def bitLenFrom (v : Nat) : Nat → Nat
   | 0 => 1
-  | 1 => 1
-  | i + 2 => if v.testBit (i + 2) then i + 3 else bitLenFrom v (i + 1)
+  | i + 1 => if v.testBit (i + 1) then i + 2 else bitLenFrom v i
 
 /-- `circuit.bitLen(v uint64)` -/
 def bitLen (v : Nat) : Nat := bitLenFrom v 63
@@ -413,7 +414,7 @@ inductive RVal where
   | str (s : String)
   | u (w : Nat) (v : Nat)          -- uint8/16/32/64
   | i (w : Nat) (v : Int)          -- int8/16/32/64
-  /-- `*big.Int`: for a top-level value this is the *argument pointer itself* -/
+  /-- `*big.Int` (for a wide `TUint`, and a wide non-negative `TInt`, the argument pointer itself) -/
   | big (v : Int)
   | bool (b : Bool)
   /-- slice built by reflection; the string names the element type -/
@@ -468,10 +469,11 @@ def result : Info → Int → Except Err (RVal × Int)
     | .int =>
       if t.bits = 0 then .error .panic           -- result.Bit(-1)
       else
-        -- result.Sub(tmp, result); result.Neg(result)  — in place
+        -- result = new(big.Int).Sub(tmp, result); result.Neg(result): a fresh value
+        -- (commit 66e4e03; before it the Sub ran in place, see `resultIntOld`)
         let z' := if ibit z (t.bits - 1) then -((2 ^ t.bits : Nat) - z) else z
-        if widthClass t.bits = 0 then .ok (.big z', z')
-        else .ok (.i (widthClass t.bits) (toIntW (widthClass t.bits) z'), z')
+        if widthClass t.bits = 0 then .ok (.big z', z)
+        else .ok (.i (widthClass t.bits) (toIntW (widthClass t.bits) z'), z)
     | .bool => .ok (.bool (toUint64 z != 0), z)
     | .array | .slice =>
       match t with
